@@ -38,6 +38,7 @@ func init() {
 			ruleErrorPathKeepsLine(r, []string{"UnpackExtractor", "LineFormat"})
 			ruleFirstLastGuards(r)
 			ruleRenderIndex(r)
+			rulePFAlloc(r, []string{enginePkg, metricPkg, dockerlogPkg, logqlPkg, lexerPkg, itersPkg, "internal/logql/logqlengine/jsonexpr", "internal/logql/logqlengine/logqlpattern", "internal/otelstorage"}, 5)
 		},
 	})
 }
